@@ -443,6 +443,17 @@ pub fn judge(w: &World, run: &Run, focus: Option<&str>) -> (Verdict, RunInfo) {
     for inst in &m.insts {
         if let (Some(_), Some(facts)) = (&inst.text, &inst.facts) {
             info.g1_entry_points_compared += 1;
+            if let Some((a, b, msg)) = &facts.plain_parse_bad_span {
+                soft!(info, focus, viol(
+                    "S1",
+                    C12,
+                    "plain-parse-span",
+                    format!(
+                        "`{}` (length {}): the plain entry point `SourceFile::parse` reports `{}` with range {}..{}, which is not a valid span of the text",
+                        inst.target, inst.text.as_ref().map_or(0, |t| t.len()), msg, a, b
+                    ),
+                ));
+            }
             if let Some((plain, checked)) = facts.plain_parse_differs {
                 soft!(info, focus, viol(
                     "G1",
